@@ -125,6 +125,10 @@ impl Model for SuccModel {
     }
 }
 
+fn t_thorough(ctx: &Ctx) -> bool {
+    ctx.tier.thorough()
+}
+
 // independent civil-date arithmetic (days from 1970-01-01), Howard Hinnant's algorithm
 fn days_from_civil(y: i64, m: i64, d: i64) -> i64 {
     let y = if m <= 2 { y - 1 } else { y };
@@ -364,6 +368,50 @@ pub fn run(ctx: &'static Ctx) -> (&'static str, Value, Vec<&'static str>) {
         }
     }
 
+    // --- prefix x source sequence x target sequence: every date of a leap year x 4 times of day
+    // (the prefix itself contains digit groups that can collide with the zero-padded sequence)
+    let mut pdates: Vec<(i64, i64)> = Vec::new();
+    for m in 1..=12 {
+        for d in 1..=days_in_month(2024, m) {
+            pdates.push((m, d));
+        }
+    }
+    let ptimes = ["000000", "101010", "123330", "235959", "001002", "055055"];
+    let pref: Stats = pdates
+        .par_iter()
+        .fold(Stats::new, |mut st, (m, d)| {
+            for (ti, t) in ptimes.iter().enumerate() {
+                if !t_thorough(ctx) && ti >= 3 && (m + d) % 4 != 0 {
+                    continue;
+                }
+                let prefix = format!("2024{m:02}{d:02}-{t}");
+                for s in 1..=55usize {
+                    let id = ChunkIdentifier::new("KDMX".into(), VolumeIndex::new(7), chunk_name(&prefix, s), None);
+                    // successor
+                    let r = check_position(ctx, &prefix, 7, s);
+                    let _ = r;
+                    st.evaluations += 1;
+                    for s2 in 1..=55usize {
+                        st.evaluations += 1;
+                        let id2 = id.clone();
+                        match guarded(move || id2.with_sequence(s2)) {
+                            Caught::Panic(pn) => ctx.fail("with_sequence:panic", || pn.clone(), || json!({"op": "with_sequence", "name": chunk_name(&prefix, s), "to": s2})),
+                            Caught::Ret(n) => {
+                                if n.name() != chunk_name(&prefix, s2) || n.name_prefix() != prefix || n.sequence() != Some(s2) || n.chunk_type() != Some(ref_type(s2)) || n.site() != "KDMX" || n.volume().as_number() != 7 {
+                                    ctx.fail("with_sequence:fields:prefix_dependent", || format!("{} -> sequence {s2}: {:?}", chunk_name(&prefix, s), n.name()), || json!({"op": "with_sequence", "name": chunk_name(&prefix, s), "to": s2}));
+                                }
+                            }
+                        }
+                    }
+                }
+                st.nontrivial(prefix.as_bytes());
+                st.count("prefixes", 1);
+            }
+            st
+        })
+        .reduce(Stats::new, Stats::merge);
+    stats = stats.merge(pref);
+
     // --- archive names
     let suffixes = ["", "_V06", "_V06_MDM", ".gz"];
     let (y0, y1) = if t { (1991, 2040) } else { (1991, 2040) };
@@ -459,7 +507,7 @@ pub fn run(ctx: &'static Ctx) -> (&'static str, Value, Vec<&'static str>) {
     stats = stats.merge(tot);
 
     let mut cov = stats.coverage(
-        "stateright BFS+DFS over the successor graph whose transition function is the real ChunkIdentifier::next_chunk (reachable set must be exactly 999x55); then every (volume, sequence) x 3 prefixes as an initial state, in-degree and full orbit; all names parse back; with_sequence 55x55; archive names for every date 1991..2040 x 3 times x suffixes and every second of one day; totality over multi-byte insert/replace at every offset and all short strings over a 10-symbol alphabet. non-trivial = distinct position/name/date/string",
+        "stateright BFS+DFS over the successor graph whose transition function is the real ChunkIdentifier::next_chunk (reachable set must be exactly 999x55); then every (volume, sequence) x 3 prefixes as an initial state, in-degree and full orbit; all names parse back; with_sequence 55x55; successor and with_sequence (55 x 55) for every date of 2024 x 3 (thorough 6) times of day as prefix; archive names for every date 1991..2040 x 3 times x suffixes and every second of one day; totality over multi-byte insert/replace at every offset and all short strings over a 10-symbol alphabet. non-trivial = distinct position/name/date/string",
         true,
         json!({"positions": 54945, "dates": dates.len(), "totality_alphabet": alpha, "totality_len": maxlen}),
     );
